@@ -118,10 +118,16 @@ impl Program {
 #[cfg(feature = "verif")]
 impl Program {
     pub fn verif_dump(&self) -> String {
+        // link errors are collected in hash-map order: sort them
+        let sorted = |v: &[Error]| {
+            let mut s: Vec<String> = v.iter().map(|e| format!("{:?}", e)).collect();
+            s.sort();
+            s
+        };
         format!(
             "{:?}{:?}{}{:?}{}",
-            self.errors,
-            self.indirect_errors,
+            sorted(&self.errors),
+            sorted(&self.indirect_errors),
             self.direct_address,
             self.line_number,
             self.link.verif_dump()
